@@ -7,6 +7,9 @@
 //	(2) cmap       every ToUnicode CMap program with <= 3 entries over 9 entry kinds x code width 1..4
 //	               x formatting policy x sectioning, observed per entry and as a whole, through the
 //	               CMap API and through the font objects; plus ToUnicode-over-encoding precedence;
+//	(2b) cmapu16   every Unicode scalar value as a ToUnicode target in each entry form (bfchar, bfrange
+//	               offset, bfrange array element), and the boundary code points of the surrogate
+//	               arithmetic in every multi-unit mix — the CMap path has its own UTF-16 decoder;
 //	(3) utf16      every Unicode scalar value (and all pairs/triples over a boundary alphabet) as
 //	               UTF-16BE/LE with BOM through Font.DecodeString, and without BOM through
 //	               DecodeUTF16BE/LE; expected = NFC of the input;
@@ -33,6 +36,8 @@ func run(e *harness.Env) {
 	ref := loadRef()
 	encodings(e, ref)
 	cmaps(e)
+	cmapAstral(e)
+	cmapScalars(e)
 	precedence(e)
 	utf16s(e)
 	invariants(e)
